@@ -46,6 +46,7 @@ def run(tier):
     # specification growth hosted here: TransportHandle peer bookkeeping (conformance, informational)
     import growth
     growth.transport(rep, wd, big)
+    growth.scheduler(rep, wd, big)
     return rep.finish(
         rule="2..12 real DhtNetworkManagers on the in-memory hub in virtual time; 1..7 concurrent lookups/puts/gets on one node, inbound "
              "requests from the others, delivery delays 0..1.45 x timeout, peers silenced at seeded instants, stop() at a seeded instant; "
